@@ -142,3 +142,106 @@ def confirm_from_cex(ob):
                 "actual": {c.get("statistic", "?"): c.get("actual")}, "confirmed_on_real_code": True,
                 "note": "envelope guard: executed on the real crate"}
     return None
+
+
+def _check(name, function, bound, progs, exps, results):
+    worst = 0.0
+    for pg, res, exp in zip(progs, results, exps):
+        if res.get("error"):
+            return [Obligation(name, function, "replay+fractions", UNDECIDED, 0.0, "replay failed: %s" % res["error"], bounded=bound, kind="bounded")]
+        if res["panic"]:
+            return [Obligation(name, function, "replay+fractions", REFUTED, 0.0, "panic: " + res["panic"],
+                               cex={"class": {"envelope": True}, "program": pg}, bounded=bound, kind="bounded")]
+        for key, (e, tol) in exp.items():
+            a = res["obs"].get(key)
+            if a is None:
+                continue
+            err = abs(a - e) if a == a else float("inf")
+            slack = tol + 4 * U * abs(e)
+            if slack > 0:
+                worst = max(worst, err / slack)
+            if err > slack:
+                return [Obligation(name, function, "replay+fractions", REFUTED, 0.0,
+                                   "%s: got %r, exact %r, |error| %.3e > envelope %.3e" % (key, a, e, err, slack),
+                                   cex={"class": {"envelope": True}, "program": pg, "statistic": key, "expected": repr(e), "actual": repr(a)},
+                                   bounded=bound, kind="bounded")]
+    return [Obligation(name, function, "replay+fractions", DISCHARGED, 0.0,
+                       "all inside the envelope; worst error/envelope ratio %.3g" % worst, bounded=bound, kind="bounded",
+                       text="forward-error envelope on %d programs" % len(progs))]
+
+
+def guard_covariance(prop):
+    """Covariance on pairs with independent large offsets on x and y, add-only and merged."""
+    accs = ["mean_x", "mean_y", "population_variance_x", "population_variance_y", "sample_variance_x", "sample_variance_y",
+            "population_covariance", "sample_covariance", "pearson"]
+    base = [[(1.0, 2.0), (2.0, 5.0), (4.0, 3.0), (8.0, 9.0), (3.0, 1.0)],
+            [(float(i), float((7 * i) % 11) - 0.5 * i) for i in range(30)],
+            [(-1.0, 5.0), (0.5, 2.0), (3.0, -2.0), (7.0, -1.0), (2.0, 2.0), (2.5, 0.0)]]
+    progs, exps = [], []
+    for b in base:
+        for ox, oy in ((0.0, 0.0), (1e9, 0.0), (1e6, -1e9), (1e12, 1e12)):
+            pts = [(x + ox, y + oy) for x, y in b]
+            fx = [(Fraction(x), Fraction(y)) for x, y in pts]
+            n = len(fx)
+            mx = sum(a for a, _ in fx) / n
+            my = sum(c for _, c in fx) / n
+            cxx = sum((a - mx) ** 2 for a, _ in fx)
+            cyy = sum((c - my) ** 2 for _, c in fx)
+            cxy = sum((a - mx) * (c - my) for a, c in fx)
+            sdx, sdy = math.sqrt(float(cxx / n)), math.sqrt(float(cyy / n))
+            kap = 1.0 + max(max(abs(float(a)) for a, _ in fx) / sdx, max(abs(float(c)) for _, c in fx) / sdy)
+            nk = n * kap * U
+            sc = math.sqrt(float(cxx) * float(cyy))
+            exp = {"mean_x": (float(mx), 4 * nk * sdx), "mean_y": (float(my), 4 * nk * sdy),
+                   "population_variance_x": (float(cxx / n), 16 * nk * float(cxx / n)), "population_variance_y": (float(cyy / n), 16 * nk * float(cyy / n)),
+                   "sample_variance_x": (float(cxx / (n - 1)), 16 * nk * float(cxx / (n - 1))), "sample_variance_y": (float(cyy / (n - 1)), 16 * nk * float(cyy / (n - 1))),
+                   "population_covariance": (float(cxy / n), 32 * nk * sc / n), "sample_covariance": (float(cxy / (n - 1)), 32 * nk * sc / (n - 1)),
+                   "pearson": (float(cxy) / sc, 32 * nk)}
+            progs.append({"type": "Covariance", "ctor": ["new"], "ops": [["add2", x, y] for x, y in pts], "observe": accs})
+            exps.append(exp)
+            for cut in sorted({1, n // 2, n - 1}):
+                progs.append({"type": "Covariance", "ctor": ["new"], "ops": [["add2", x, y] for x, y in pts[:cut]] + [
+                    ["merge", {"type": "Covariance", "ctor": ["new"], "ops": [["add2", x, y] for x, y in pts[cut:]]}]], "observe": accs})
+                exps.append(exp)
+    bound = "known-answer corpus: %d programs, independent offsets up to 1e12 on x and y; envelope of DESIGN.md section 5" % len(progs)
+    return _check("%s.Covariance.envelope_guard" % prop, "src/covariance.rs::Covariance (add-only and two-chunk merges)", bound, progs, exps,
+                  replay.run_programs(progs, timeout=900))
+
+
+def guard_weighted(prop):
+    """WeightedMeanWithError with weights in {0} U [1e-6, 1e6] and offset samples."""
+    accs = ["weighted_mean", "sum_weights", "sum_weights_sq", "effective_len", "unweighted_mean", "population_variance", "sample_variance",
+            "variance_of_weighted_mean", "error"]
+    base = [[(1.0, 2.0), (2.0, 0.0), (4.0, 3.0), (8.0, 1e-6), (3.0, 1e6), (5.0, 1.5)],
+            [(float(i % 7), 0.25 + (i % 5)) for i in range(40)],
+            [(0.5, 0.0), (1.5, 0.0), (2.5, 1.0), (3.5, 2.0)]]
+    progs, exps = [], []
+    for b in base:
+        for off in (0.0, 1e6, 1e9):
+            pts = [(x + off, w) for x, w in b]
+            fx = [(Fraction(x), Fraction(w)) for x, w in pts]
+            n = len(fx)
+            W = sum(w for _, w in fx)
+            W2 = sum(w * w for _, w in fx)
+            WX = sum(w * x for x, w in fx)
+            mu = sum(x for x, _ in fx) / n
+            m2 = sum((x - mu) ** 2 for x, _ in fx) / n
+            sd = math.sqrt(float(m2))
+            mxx = max(abs(float(x)) for x, _ in fx)
+            kap = 1.0 + mxx / sd
+            nk = n * kap * U
+            sv = float(m2) * n / (n - 1)
+            vwm = sv * float(W2) / float(W) ** 2
+            exp = {"weighted_mean": (float(WX / W), 8 * n * U * mxx), "sum_weights": (float(W), 8 * n * U * float(W)),
+                   "sum_weights_sq": (float(W2), 8 * n * U * float(W2)), "effective_len": (float(W * W / W2), 8 * n * U * float(W * W / W2) * 3),
+                   "unweighted_mean": (float(mu), 4 * nk * sd), "population_variance": (float(m2), 16 * nk * float(m2)),
+                   "sample_variance": (sv, 16 * nk * sv), "variance_of_weighted_mean": (vwm, 32 * nk * vwm), "error": (math.sqrt(vwm), 32 * nk * math.sqrt(vwm))}
+            progs.append({"type": "WeightedMeanWithError", "ctor": ["new"], "ops": [["add2", x, w] for x, w in pts], "observe": accs})
+            exps.append(exp)
+            for cut in sorted({1, n // 2, n - 1}):
+                progs.append({"type": "WeightedMeanWithError", "ctor": ["new"], "ops": [["add2", x, w] for x, w in pts[:cut]] + [
+                    ["merge", {"type": "WeightedMeanWithError", "ctor": ["new"], "ops": [["add2", x, w] for x, w in pts[cut:]]}]], "observe": accs})
+                exps.append(exp)
+    bound = "known-answer corpus: %d programs, weights in {0} U [1e-6, 1e6], sample offsets up to 1e9; envelope of DESIGN.md section 5" % len(progs)
+    return _check("%s.WeightedMeanWithError.envelope_guard" % prop, "src/weighted_mean.rs::WeightedMeanWithError (add-only and two-chunk merges)",
+                  bound, progs, exps, replay.run_programs(progs, timeout=900))
